@@ -103,6 +103,9 @@ func (g Generator) Generate(openapi3Spec *openapi3.Swagger, outDir string, packa
 		basePath = u.Path
 	}
 
+	// a trailing slash on the base path is insignificant
+	basePath = strings.TrimRight(basePath, "/")
+
 	gen, err := generator.NewGenerator(s,
 		cfg,
 		generator.PackageName(packageName),
